@@ -299,6 +299,13 @@ func (r *Raft) onInstallSnapRequest(req *installSnapReq, c *conn) (rpcResult, er
 	r.setState(Follower)
 	r.setLeader(req.src)
 
+	if req.lastIndex <= r.commitIndex {
+		// duplicate or late request (e.g. delivered over an old connection after
+		// the snapshot was installed through a newer one): everything it covers
+		// is committed here already; discarding the log now would lose entries
+		return drain(success, nil)
+	}
+
 	// store snapshot
 	sink, err := r.snaps.new(req.lastIndex, req.lastTerm, req.lastConfig)
 	if err != nil {
